@@ -20,6 +20,16 @@ const SIGMA: [&str; 18] = ["<", ">", "/", "a", ":", "=", "\"", "'", "&", ";", "#
 fn error_span_ok(text: &str, e: &xot::ParseError) -> Result<(), String> {
     let sp = e.span();
     if sp.start <= sp.end && sp.end <= text.len() {
+        // an error of the tokenizer carries a second position, the row and column that Display prints: it has to
+        // denote a place in the source as well
+        if let xot::ParseError::XmlParser(inner, _) = e {
+            let p = inner.pos();
+            let rows: Vec<&str> = text.split('\n').collect();
+            let inside = p.row >= 1 && (p.row as usize) <= rows.len() && p.col >= 1 && (p.col as usize) <= rows[p.row as usize - 1].chars().count() + 1;
+            if !inside {
+                return Err(format!("ROWCOL {:?}: row {} column {} is not a place in a source whose rows have {:?} characters", e, p.row, p.col, rows.iter().map(|r| r.chars().count()).collect::<Vec<_>>()));
+            }
+        }
         Ok(())
     } else {
         Err(format!("{:?} reports span {}..{} for a text of {} bytes", e, sp.start, sp.end, text.len()))
@@ -75,7 +85,7 @@ pub fn run(tier: Tier) -> i32 {
                 st.bump("errors_checked");
                 st.outcome(&(crate::props::c01::err_class(&format!("{:?}", e)), e.span().start, e.span().end));
                 if let Err(d) = error_span_ok(&t, &e) {
-                    st.fail(&json!({"text": t, "fragment": frag}), Fail::new(format!("error-span-out-of-bounds|{}", crate::props::c01::err_class(&format!("{:?}", e))), d));
+                    st.fail(&json!({"text": t, "fragment": frag}), Fail::new(format!("{}|{}", if d.starts_with("ROWCOL ") { "error-position-outside-source|row-column" } else { "error-span-out-of-bounds" }, crate::props::c01::err_class(&format!("{:?}", e))), d));
                 }
             }
         }
@@ -101,6 +111,20 @@ pub fn run(tier: Tier) -> i32 {
             damaged.push(chars[..cut].iter().collect());
         }
     }
+    // the same damages behind a declaration whose first separator is a TAB or a line feed (both legal)
+    let respelled: Vec<String> = damaged
+        .iter()
+        .flat_map(|t| {
+            if t.starts_with("<?xml ") {
+                vec![t.replacen("<?xml ", "<?xml\n", 1), t.replacen("<?xml ", "<?xml\t", 1)]
+            } else if !t.starts_with("<?xml") {
+                ["\n", "\t", "\r\n", " "].iter().map(|sep| format!("<?xml{}version=\"1.0\"?>{}", sep, t)).collect()
+            } else {
+                vec![]
+            }
+        })
+        .collect();
+    damaged.extend(respelled);
     total += damaged.len() as u64;
     let s = par_slice(&ctx, &damaged, |t, st| {
         let mut xot = Xot::new();
@@ -109,7 +133,7 @@ pub fn run(tier: Tier) -> i32 {
         if let Ok(Err(e)) = r {
             st.bump("errors_checked");
             if let Err(d) = error_span_ok(t, &e) {
-                st.fail(&json!({"text": t}), Fail::new(format!("error-span-out-of-bounds|{}", crate::props::c01::err_class(&format!("{:?}", e))), d));
+                st.fail(&json!({"text": t}), Fail::new(format!("{}|{}", if d.starts_with("ROWCOL ") { "error-position-outside-source|row-column" } else { "error-span-out-of-bounds" }, crate::props::c01::err_class(&format!("{:?}", e))), d));
             }
         }
     });
